@@ -288,7 +288,7 @@ var c14Causes = []string{model.FailNoTable, model.FailColCount, model.FailType, 
 	"update-" + model.FailSize, "update-" + model.FailType, "update-" + model.FailRange, "where-type", "create-length-out-of-range", "repeated-column", "create-name-too-long"}
 
 func checkC14(c *core.Ctx) []core.Floor {
-	c.Rule = "states from seeded histories (splits, tombstones); then failing INSERT/UPDATE/DELETE/CREATE TABLE statements for every cause the property names (plus column lists that name a column twice with a valid and an invalid value), with the invalid row at every position k of n-row INSERTs (n<=8) and UPDATEs whose k-th matching row is the one that overflows; full-database snapshot (SELECT * of all tables + catalog) before, immediately after, after flush+close+new process, and after crash+recovery of an image taken right after the failure; then 3 valid statements. A further third as many cases end with statements of unusual but legal shapes that the unchanged code ACCEPTS (a column named twice in CREATE TABLE, no columns, SET of one column twice, partial or repeated column lists, ...): whatever they do is not judged - unless they return an error, in which case the dump before, the dump after and the dump after close + reopen have to be identical. Distinct = (history, failing statement); non-trivial = the failing row was not the first (k > 1) or the cause is not row-related."
+	c.Rule = "states from seeded histories (splits, tombstones); then failing INSERT/UPDATE/DELETE/CREATE TABLE statements for every cause the property names (plus column lists that name a column twice with a valid and an invalid value), with the invalid row at every position k of n-row INSERTs (n<=8) and UPDATEs whose k-th matching row is the one that overflows; full-database snapshot (SELECT * of all tables + catalog) before, immediately after, after flush+close+new process, and after crash+recovery of an image taken right after the failure; then 3 valid statements. A further third as many cases end with statements of unusual but legal shapes that the unchanged code ACCEPTS (a column named twice in CREATE TABLE, no columns, SET of one column twice, partial or repeated column lists, and single statements that move over a megabyte of row images: a 3000-row INSERT of near-limit rows, an UPDATE of all of them, a DELETE of 45000 rows, ...): whatever they do is not judged - unless they return an error, in which case the dump before, the dump after and the dump after close + reopen have to be identical. Distinct = (history, failing statement); non-trivial = the failing row was not the first (k > 1) or the cause is not row-related."
 	c.Assume = []string{"which error value is returned is not judged, only that one is", "row ids may have gaps after a refused row"}
 	drv := mustDriver(c, false)
 	n := 300
@@ -297,7 +297,7 @@ func checkC14(c *core.Ctx) []core.Floor {
 	}
 	core.ParallelFor(n, c.Workers, func(i int) { runC14(c, drv, i) })
 	core.ParallelFor(n/3, c.Workers, func(i int) { runC14Maybe(c, drv, i) })
-	fl := []core.Floor{{Key: "failing_statements", Min: 300}, {Key: "stage_clean_restart_ok", Min: 50}, {Key: "stage_crash_ok", Min: 100}}
+	fl := []core.Floor{{Key: "odd_statements_of_over_a_megabyte_of_row_images", Min: 2}, {Key: "failing_statements", Min: 300}, {Key: "stage_clean_restart_ok", Min: 50}, {Key: "stage_crash_ok", Min: 100}}
 	for _, cs := range c14Causes {
 		fl = append(fl, core.Floor{Key: "cause_" + cs, Min: 5})
 	}
@@ -642,8 +642,45 @@ func runC14Maybe(c *core.Ctx, drv string, idx int) {
 		fmt.Sprintf("UPDATE %s SET g = 6 WHERE k = -5", t.Name),
 		fmt.Sprintf("INSERT INTO %s (k, g) VALUES (77781, 1), (77782, 2), (77783, 3), (77784, 4), (77785, 5), (77786, 6), (77787, 7), (77788, 8), (77789, 9), (77790, 10)", t.Name),
 	}
-	pre := s.k("dump")
 	q := cands[r.Intn(len(cands))]
+	if idx%50 == 7 {
+		// one huge statement (over a megabyte of row images): a 3000-row
+		// INSERT of rows near the size limit, an UPDATE of all of them, or a
+		// DELETE without WHERE over 45000 short rows. Accepted by the
+		// unchanged code; should a size limit ever refuse one of them, it has
+		// to do so before the first row is touched
+		big := fmt.Sprintf("huge%d", idx)
+		wide := func(from, n int, fill string) string {
+			var p []string
+			for i := 0; i < n; i++ {
+				p = append(p, fmt.Sprintf("(%d, '%s', '%s')", from+i, strings.Repeat(fill, 250), strings.Repeat("q", 110+(from+i)%15)))
+			}
+			return strings.Join(p, ", ")
+		}
+		switch (idx / 50) % 3 {
+		case 0:
+			s.sql("CREATE TABLE " + big + " (k INT, p VARCHAR(255), q VARCHAR(255))")
+			q = "INSERT INTO " + big + " VALUES " + wide(0, r.Range(2800, 3400), "p")
+		case 1:
+			s.sql("CREATE TABLE " + big + " (k INT, p VARCHAR(255), q VARCHAR(255))")
+			for from := 0; from < 3000; from += 500 {
+				s.sql("INSERT INTO " + big + " VALUES " + wide(from, 500, "p"))
+			}
+			q = "UPDATE " + big + " SET p = '" + strings.Repeat("u", 250) + "'"
+		default:
+			s.sql("CREATE TABLE " + big + " (k INT)")
+			for from := 0; from < 45000; from += 5000 {
+				var p []string
+				for i := 0; i < 5000; i++ {
+					p = append(p, fmt.Sprintf("(%d)", from+i))
+				}
+				s.sql("INSERT INTO " + big + " VALUES " + strings.Join(p, ", "))
+			}
+			q = "DELETE FROM " + big
+		}
+		c.Count("odd_statements_of_over_a_megabyte_of_row_images", 1)
+	}
+	pre := s.k("dump")
 	st := s.sql(q)
 	post := s.k("dump")
 	s.k("flush")
